@@ -708,3 +708,74 @@ def rule_own_store(ctx: RuleContext, ts: TS, rid: str, attrs: Optional[set[str]]
     ctx.ok(rid, 'modules scanned', f'{len(p.modules)} modules', nontrivial=False)
     if n_in < 20:
         raise AnalysisError(f'OWN-STORE: only {n_in} bookkeeping writes seen in token_store.py (>= 20 confirmed)')
+
+
+# ======================================================================= TS-GATE
+def rule_ts_gate(ctx: RuleContext, ts: TS, rid: str) -> None:
+    ctx.rule(rid, 'the gate of _splice refuses, before any mutation, every incoming token that already has a store handle unless '
+                  'that handle belongs to *this* store and lies inside the range being replaced (decided by a truth table over: has '
+                  'handle / same store / in range); so no token can end up listed by two stores')
+    import itertools
+    fn = ts._need('TokenStore._splice')
+    tokens_p = fn.params[1]
+    body = stmts_no_doc(fn.node.body)
+    gate = None
+    before_mut = True
+    for st in body:
+        if isinstance(st, ast.For) and norm(st.iter) == tokens_p and any(isinstance(x, ast.Raise) for x in ast.walk(st)):
+            gate = st
+            break
+        if not (isinstance(st, ast.Assign) and all(isinstance(t, (ast.Name, ast.Tuple)) for t in st.targets)):
+            before_mut = False
+    if gate is None:
+        ctx.fail(rid, 'token_store:TokenStore._splice', 'gate loop', 'no loop over the incoming tokens that refuses tokens already in a store', fn.where)
+        return
+    ctx.check(before_mut, rid, 'token_store:TokenStore._splice: gate position', 'before any mutation',
+              'the in-store check runs after state was already modified', fn.where, note='gate is the first effectful statement')
+    tv = norm(gate.target)
+    ifs = [s for s in gate.body if isinstance(s, ast.If) and any(isinstance(x, ast.Raise) for x in s.body)]
+    if len(ifs) != 1 or len(gate.body) != 1:
+        raise AnalysisError('TS-GATE: gate loop body is not a single `if ...: raise`')
+    test = ifs[0].test
+
+    def ev(e: ast.AST, A: bool, S: bool, R: bool) -> bool:
+        if isinstance(e, ast.BoolOp):
+            vals = [ev(v, A, S, R) for v in e.values]
+            return all(vals) if isinstance(e.op, ast.And) else any(vals)
+        if isinstance(e, ast.UnaryOp) and isinstance(e.op, ast.Not):
+            return not ev(e.operand, A, S, R)
+        t = norm(e)
+        if t in (f'{tv}.store_handle is not None', f'{tv}.store_handle'):
+            return A
+        if t == f'{tv}.store_handle is None':
+            return not A
+        if isinstance(e, ast.Compare) and len(e.ops) == 1 and isinstance(e.ops[0], (ast.Is, ast.IsNot)) and 'store' in t \
+                and norm(e.comparators[0]) in ('self',) and norm(e.left).endswith('.block.store'):
+            return S if isinstance(e.ops[0], ast.Is) else not S
+        if isinstance(e, ast.Compare) and len(e.ops) == 2 and all(isinstance(o, ast.LtE) for o in e.ops) \
+                and norm(e.left) == fn.params[2] and norm(e.comparators[1]) == fn.params[3] and 'block.index' in norm(e.comparators[0]) \
+                and norm(e.comparators[0]).count('.index') == 2:
+            return R
+        raise AnalysisError(f'TS-GATE: gate condition atom {t[:80]!r} not understood')
+
+    wrong = []
+    for A, S, R in itertools.product([False, True], repeat=3):
+        want = A and (not S or not R)
+        try:
+            got = ev(test, A, S, R)
+        except AnalysisError:
+            raise
+        if got != want:
+            wrong.append((A, S, R, got))
+    def show(w: tuple) -> str:
+        A, S, R, got = w
+        return f'token {"with" if A else "without"} a handle, {"this" if S else "another"} store, position {"inside" if R else "outside"} the range: ' \
+               f'{"refused" if got else "accepted"}'
+    ctx.check(not wrong, rid, 'token_store:TokenStore._splice: gate condition', norm(test)[:160],
+              'the gate decides wrongly for: ' + '; '.join(show(w) for w in wrong if w[0]) + ' -- a token that lives in another document at a '
+              'position that happens to fall inside the replaced range is spliced in and ends up in two stores', fn.where,
+              note='refuse iff has handle and (foreign store or outside range)')
+    ft = ts._need('TokenStore.from_tokens')
+    ok = any(isinstance(s, ast.For) and any(isinstance(x, ast.Raise) for x in ast.walk(s)) and f'.store_handle' in norm(s) for s in stmts_no_doc(ft.node.body)[:1])
+    ctx.check(ok, rid, 'token_store:TokenStore.from_tokens: gate', 'refuses tokens that have a handle', 'from_tokens does not refuse tokens that are '
+              'already in a store before building blocks', ft.where)
